@@ -179,6 +179,64 @@ def through_pandas(ns, res, case, ref, expected_header):
             res.violation('py:pandas-columns-differ:' + common.feature_sig(case['q']), '[py] dataframe columns %r, expected %r for %s' % (list(out.columns), expected_header, case['query_text']), dict(case, engine='py', leg='pandas'))
 
 
+def through_sqlite(ns, res, case, n):
+    """The sqlite front-end over a table holding the same data - plain, with a GENERATED column (in SELECT * but not in PRAGMA table_info), read through a
+    VIEW - feeding the width-enforcing CSV writer: it must not raise, and the first line is the header the naming rules give."""
+    import sqlite3
+    an, bn, B = case['a_names'], case['b_names'], case['B']
+    if an is None or case['q'].get('with'):
+        return
+    for names in (an, bn):
+        if names is not None and (len(set(x.lower() for x in names)) != len(names) or any('\x00' in x or x == '' for x in names)):
+            return
+    A = [list(r) for r in case['A']]
+    shape = ['plain', 'generated', 'view', 'generated'][(n // 4) % 4]
+    gen_col = other = None
+    if shape == 'generated' and len(an) > 1:
+        gen_col = (n // 16) % len(an)
+        other = (gen_col + 1 + (n // 5) % (len(an) - 1)) % len(an)
+        for r in A:
+            r[gen_col] = 'g' + r[other][:1]
+    elif shape == 'generated':
+        shape = 'plain'
+    ref = refsem.run(case['q'], A, B, an, bn)
+    if ref.error is not None:
+        return
+    qn = lambda x: '"%s"' % x.replace('"', '""')
+    conn = sqlite3.connect(':memory:')
+    try:
+        try:
+            defs = [(qn(x) + " TEXT GENERATED ALWAYS AS ('g' || substr(%s, 1, 1)) %s" % (qn(an[other]), ['VIRTUAL', 'STORED'][n % 2])) if j == gen_col else qn(x) + ' TEXT' for j, x in enumerate(an)]
+            conn.execute('CREATE TABLE %s (%s)' % ('t0' if shape == 'view' else 't', ', '.join(defs)))
+            stored = [j for j in range(len(an)) if j != gen_col]
+            conn.executemany('INSERT INTO %s (%s) VALUES (%s)' % ('t0' if shape == 'view' else 't', ', '.join(qn(an[j]) for j in stored), ','.join('?' * len(stored))), [[r[j] for j in stored] for r in A])
+            if shape == 'view':
+                conn.execute('CREATE VIEW t AS SELECT * FROM t0')
+            if B is not None:
+                conn.execute('CREATE TABLE b (%s)' % ', '.join(qn(x) + ' TEXT' for x in bn))
+                conn.executemany('INSERT INTO b VALUES (%s)' % ','.join('?' * len(bn)), B)
+            conn.commit()
+        except sqlite3.Error:
+            res.count('sqlite_tables_not_creatable')
+            return
+        res.count('sqlite_runs')
+        res.count('sqlite_runs:' + shape)
+        buf = io.StringIO(newline='')
+        w = ns.csv.CSVWriter(buf, False, None, ',', 'quoted_rfc')
+        cs = dict(case, engine='py', leg='sqlite', A=A, sqlite_shape=shape, generated_column=gen_col)
+        try:
+            ns.rbql.query(case['query_text'], ns.sqlite.SqliteRecordIterator(conn, 't'), w, [], ns.sqlite.SqliteDbRegistry(conn), user_init_code=qast.INIT_PY)
+        except Exception as e:
+            res.violation('py:sqlite-front-end-rejects-header:' + common.feature_sig(case['q']), '[py] sqlite (%s table, columns %r) -> CSV writer raised %s: %s for %s' % (shape, an, util.error_class(e), str(e)[:160], case['query_text']), cs)
+            return
+        r = refcsv.read_text(buf.getvalue(), ',', 'quoted_rfc')
+        first = r.records[0] if r.records else None
+        if ref.header and first != [str(x) for x in ref.header]:
+            res.violation('py:sqlite-header-differs:' + common.feature_sig(case['q']), '[py] sqlite (%s table, columns %r): first CSV line %r, expected header %r for %s' % (shape, an, first, ref.header, case['query_text']), cs)
+    finally:
+        conn.close()
+
+
 def plan(tier, seed):
     k = NSHARDS[tier]
     return [{'k': k, 'i': i, 'n': CASES[tier] // k} for i in range(k)]
@@ -219,6 +277,8 @@ def run_shard(spec, res):
                     through_csv_writer(ns, res, case, ref, ref.header)
                     if n % 4 == 0:
                         through_pandas(ns, res, case, ref, ref.header)
+                    if n % 4 == 2:
+                        through_sqlite(ns, res, case, n)
             if n % 2499 == 0:
                 res.sample({'query': case['query_text'], 'a_names': case['a_names'], 'b_names': case['b_names'], 'expected_header': ref.header, 'observed_header': o.header})
             js.add(case, ref, True)
@@ -229,8 +289,8 @@ def run_shard(spec, res):
 def summarize(tier, seed, m):
     shapes = sorted(k[6:] for k in m['counters'] if k.startswith('shape:'))
     return {
-        'rule': 'select lists of 1-4 items over fields in five spellings, stars, NR / NF / aNR / bNR, calls of user functions with commas and brackets inside arguments and string literals (f("x, y", [a1, 2, [1]]), g(...)[0]), literals that look like syntax, typed expressions, UNNEST, aliases written as / AS; families rotating over plain, DISTINCT, DISTINCT COUNT, TOP, GROUP BY with aggregates, * EXCEPT, UPDATE, JOIN, JOIN + DISTINCT COUNT; rectangular tables; header / no header alternating. Each case: rbql.query with probes vs reference header names, icontract-armed query_table, CSV writer (every case) and query_pandas_dataframe (every 4th) which enforce the width; JS leg. distinct_nontrivial = distinct (query, header names) that produced an output header.',
-        'required': ['py_cases', 'headers_observed', 'contract_evaluations', 'csv_writer_runs', 'pandas_runs', 'js_cases'],
+        'rule': 'select lists of 1-4 items over fields in five spellings, stars, NR / NF / aNR / bNR, calls of user functions with commas and brackets inside arguments and string literals (f("x, y", [a1, 2, [1]]), g(...)[0]), literals that look like syntax, typed expressions, UNNEST, aliases written as / AS; families rotating over plain, DISTINCT, DISTINCT COUNT, TOP, GROUP BY with aggregates, * EXCEPT, UPDATE, JOIN, JOIN + DISTINCT COUNT; rectangular tables; header / no header alternating. Each case: rbql.query with probes vs reference header names, icontract-armed query_table, CSV writer (every case) and query_pandas_dataframe (every 4th) which enforce the width; every 4th headed case also through SqliteRecordIterator / SqliteDbRegistry over a table holding the same data (plain, with a GENERATED column VIRTUAL or STORED, through a VIEW) into the CSV writer; JS leg. distinct_nontrivial = distinct (query, header names) that produced an output header.',
+        'required': ['py_cases', 'headers_observed', 'contract_evaluations', 'csv_writer_runs', 'pandas_runs', 'sqlite_runs:plain', 'sqlite_runs:generated', 'sqlite_runs:view', 'js_cases'],
         'extra': {'shapes_seen': shapes},
         'assumptions': ['rv/model/refsem.py header_names states the documented naming rule (DISTINCT COUNT: the count column is col1 and the following positional names count it)', 'parenthesised fields like (a1), mixed-case As, variable-width lists are outside the rule and not generated'],
     }
